@@ -18,7 +18,14 @@ const (
 	preambleLen  = 36
 )
 
-var errMalformed = errors.New("malformed rtpdump")
+var (
+	errMalformed       = errors.New("malformed rtpdump")
+	errPayloadTooLarge = errors.New("rtpdump payload does not fit the 16-bit record length")
+)
+
+// maxPayloadLen is the largest payload a record can carry: the record length
+// field is 16 bits wide and includes the 8-byte record header.
+const maxPayloadLen = 0xFFFF - pktHeaderLen
 
 // Header is the binary header at the top of the RTPDump file. It contains
 // information about the source and start time of the packet stream included
@@ -88,6 +95,10 @@ type Packet struct {
 
 // Marshal encodes the Packet as binary.
 func (p Packet) Marshal() ([]byte, error) {
+	if len(p.Payload) > maxPayloadLen {
+		return nil, errPayloadTooLarge
+	}
+
 	packetLength := len(p.Payload)
 	if p.IsRTCP {
 		packetLength = 0
